@@ -170,6 +170,26 @@ Theorem c13_inspector : forall insp b,
 Proof. exact inspector_plain. Qed.
 Print Assumptions c13_inspector.
 
+(* the same for the manager that results from ANY history of configurations of one listener (LDS updates: inspector flips
+   with unchanged contexts, context changes with unchanged inspector, ...): the manager in force is the one built from the
+   LAST configuration.  `tls_manager_cached` is read from NewTLSServerContextManager on this run (false = a fresh manager
+   is built on every call). *)
+Theorem c13_manager_not_cached : tls_manager_cached = false.
+Proof. exact (eq_refl false). Qed.
+Theorem c13_inspector_after_updates : forall h ctxs insp b,
+  ctxs <> [] ->
+  match mode_after tls_manager_cached (h ++ [(ctxs, insp)]) b with
+  | Some m => serves_plain m = true <-> (insp = true /\ b <> 22%N)
+  | None => False
+  end.
+Proof. exact inspector_after_updates. Qed.
+Print Assumptions c13_inspector_after_updates.
+(* with a manager cached per listener name and reused when the contexts are unchanged, the statement is false *)
+Example c13_cached_manager_refuted :
+  mode_after true [([1%nat], true); ([1%nat], false)] 71 = Some ModePlain /\
+  mode_after false [([1%nat], true); ([1%nat], false)] 71 = Some ModeTLS.
+Proof. vm_compute. split; reflexivity. Qed.
+
 (* modelled behaviour outside the clause: while NO context is ready (SDS secrets not delivered) Conn() returns the raw connection *)
 Theorem c13_no_ready_context_is_raw : forall tcp insp b, conn_mode_of tcp false insp b = ModeRaw.
 Proof. exact not_ready_is_raw. Qed.
